@@ -480,15 +480,15 @@ func (x *Exec) applyContract(c *Contract, args []Value, st *State, pc *Term) Val
 // ---------------------------------------------------------------- verification of a body
 
 type VC struct {
-	Name    string // obligation group name (function / arm)
-	Layer   string
-	Props   []string
-	Query   *Query
-	B       *B
-	Exec    *Exec
-	Info    map[string]string
-	Replay  *ReplaySpec
-	caseIdx int
+	Name      string // obligation group name (function / arm)
+	Layer     string
+	Props     []string
+	Query     *Query
+	B         *B
+	Exec      *Exec
+	Info      map[string]string
+	Replay    *ReplaySpec
+	caseIdx   int
 	aliasInst bool // an aliasing instance of the parameters: the requires may legitimately exclude it
 }
 
@@ -687,7 +687,7 @@ func (ld *Loaded) verifyContract(c *Contract, useContracts bool, loopMode ...int
 	}
 	defer func() {
 		if r := recover(); r != nil {
-			if u, ok := r.(Unsupported); ok {
+			if u, ok := asUnsupported(r); ok {
 				err = fmt.Errorf("UNSUPPORTED %s (while verifying %s)", u.Msg, c.Key)
 				return
 			}
